@@ -474,7 +474,9 @@ func writeLockFacts(root, gen string, status map[string]string, facts map[string
 	} else {
 		status["Locks.sites"] = "ERROR"
 	}
-	b.WriteString("]\n\nend PC.Gen.Locks\n")
+	b.WriteString("]\n\n")
+	b.WriteString(leanLockOrder(root, status, facts))
+	b.WriteString("\nend PC.Gen.Locks\n")
 	target := filepath.Join(gen, "Locks.lean")
 	if cur, err := os.ReadFile(target); err != nil || string(cur) != b.String() {
 		_ = os.WriteFile(target, []byte(b.String()), 0o644)
